@@ -224,6 +224,23 @@ func (g *sgen) schema(depth int, parentGroup string, curDef int, inPlace bool, i
 	if g.o.Refs && r.IntN(4) == 0 {
 		if ref, ok := g.ref(curDef, inPlace); ok {
 			s["$ref"] = ref
+			if g.o.Draft == D7 && r.IntN(3) == 0 {
+				// siblings that would reject everything if draft-07 did not ignore them beside $ref
+				s[Pick(r, []string{"not", "not", "allOf", "enum", "type"})] = Pick(r, []any{true, map[string]any{}})
+				if _, bad := s["allOf"].(bool); bad {
+					s["allOf"] = []any{false}
+				}
+				if _, bad := s["enum"].(bool); bad {
+					s["enum"] = []any{}
+				} else if _, bad := s["enum"].(map[string]any); bad {
+					s["enum"] = []any{}
+				}
+				if _, ok := s["type"].(string); !ok {
+					if _, has := s["type"]; has {
+						s["type"] = "null"
+					}
+				}
+			}
 		}
 	}
 	if !g.o.NoMeta && r.IntN(12) == 0 {
